@@ -227,8 +227,23 @@ def row_sources(facts, cls="TbfParticlesContainer"):
             l = strip(kids(x)[0])
             if not (l.get("k") in ("ArraySubscriptExpr", "CXXOperatorCallExpr") and len(kids(l)) >= 2):
                 continue
-            parts = addends(kids(x)[1])
-            gi = [a for a in parts if a.get("k") == "UnaryOperator" and a.get("op") == "&" and strip(kids(a)[0]).get("k") in ("CallExpr", "CXXMemberCallExpr") and tbf.callee_name(strip(kids(a)[0])) == "getItem"]
+            rhs = strip(kids(x)[1])
+            if rhs.get("k") == "ConditionalOperator" and len(kids(rhs)) == 3:
+                # `p ? p + ... : nullptr`: the non-null side
+                br = [b_ for b_ in kids(rhs)[1:] if strip(b_).get("k") not in ("CXXNullPtrLiteralExpr", "GNUNullExpr") and not (strip(b_).get("k") == "IntegerLiteral" and strip(b_).get("val") == 0)]
+                if len(br) == 1:
+                    rhs = strip(br[0])
+            parts = addends(rhs)
+            is_gi = lambda a: a.get("k") == "UnaryOperator" and a.get("op") == "&" and strip(kids(a)[0]).get("k") in ("CallExpr", "CXXMemberCallExpr") and tbf.callee_name(strip(kids(a)[0])) == "getItem"
+            gi = [a for a in parts if is_gi(a)]
+            via = None
+            if not gi:
+                # a base pointer kept in a local: `T* first = &V.getItem(i0, j0);  A[r] = first + r * stride + off`
+                for a in parts:
+                    if a.get("k") == "DeclRefExpr" and a.get("did") in decls and kids(decls[a["did"]]):
+                        inner = [z for z in walk(kids(decls[a["did"]])[0]) if is_gi(z)]
+                        if len(inner) == 1:
+                            gi, via = [inner[0]], a
             if len(gi) != 1:
                 continue
             call = strip(kids(gi[0])[0])
@@ -248,7 +263,23 @@ def row_sources(facts, cls="TbfParticlesContainer"):
             elif base is not None:
                 vtexts = [facts.ntext(base)]
             tgt = strip(kids(l)[-2])
-            out.append(dict(fn=m, node=x, slot=strip(kids(l)[-1]), item=strip(args[0]), row=strip(args[1]), terms=[a for a in parts if a is not gi[0]], viewers=vtexts,
+            # a row stride taken from a viewer: `r * V2.getRowLength()` (directly or through a const local)
+            strides = []
+            for a in parts:
+                if a.get("k") == "BinaryOperator" and a.get("op") == "*":
+                    for f_ in kids(a):
+                        f0 = strip(f_)
+                        if f0.get("k") == "DeclRefExpr" and f0.get("did") in decls and kids(decls[f0["did"]]):
+                            f0 = strip(kids(decls[f0["did"]])[0])
+                        if f0.get("k") == "ConditionalOperator" and len(kids(f0)) == 3:
+                            # `block.isEmpty() ? 0 : viewer.getRowLength()`
+                            br_ = [b_ for b_ in kids(f0)[1:] if not (strip(b_).get("k") == "IntegerLiteral" and strip(b_).get("val") == 0)]
+                            if len(br_) == 1:
+                                f0 = strip(br_[0])
+                        if f0.get("k") in ("CallExpr", "CXXMemberCallExpr") and tbf.call_base(f0) is not None and not tbf.call_args(f0):
+                            strides.append((tbf.callee_name(f0), strip(tbf.call_base(f0)), a))
+            out.append(dict(fn=m, node=x, slot=strip(kids(l)[-1]), item=strip(args[0]), row=strip(args[1]), terms=[a for a in parts if a is not gi[0] and a is not via], viewers=vtexts,
+                            base_viewer=base, strides=strides,
                             target=tgt.get("name"), member=tgt.get("k") in ("MemberExpr", "CXXDependentScopeMemberExpr"), tparam=pidx.get(tgt.get("did"))))
     return out
 
@@ -270,6 +301,24 @@ def row_addressing(facts, res):
         f = tbf.rel(facts.path_of(r["node"]))
         sd = r["slot"].get("did") if r["slot"].get("k") == "DeclRefExpr" else None
         same_row = (sd is not None and r["row"].get("did") == sd) or (r["slot"].get("k") == "IntegerLiteral" and r["row"].get("k") == "IntegerLiteral" and r["slot"].get("val") == r["row"].get("val"))
+        if not same_row and r["row"].get("k") == "IntegerLiteral" and r["row"].get("val") == 0 and len(r.get("strides", [])) == 1 and sd is not None \
+                and any(z.get("k") == "DeclRefExpr" and z.get("did") == sd for z in walk(r["strides"][0][2])):
+            # row 0 of the block + r x (the viewer's own row length): legitimate when the length is asked from the SAME viewer, through an
+            # accessor that returns its leading dimension in elements
+            acc, sv, term = r["strides"][0]
+            bv = r.get("base_viewer")
+            accs = [g for g in facts.functions if g["name"] == acc and tbf.body(g) is not None and not g.get("inst") and not g["params"]]
+            acc_ok = bool(accs) and all(re.search(r"returnleadingDim/(static_cast<\w*>\()?sizeof\(", facts.ntext(tbf.body(g)).replace(" ", "").replace("longint", "long")) for g in accs)
+            if not acc_ok:
+                raise AnalysisBroken("%s: row stride `%s()` is not an accessor returning the viewer's leading dimension in elements" % (facts.loc(r["node"]), acc))
+            if bv is None or sv.get("did") is None or bv.get("did") != sv.get("did"):
+                res.violation(R, f, fn["qname"], "foreign-stride@%d" % r["node"]["l"][1], r["node"]["l"][1],
+                              "the pointer of row `%s` is formed from row 0 of the block viewed by `%s` and the row length of ANOTHER viewer, `%s`: every block has its own leading dimension (rows x value size, rounded up to the alignment) - for the block sizes where the two differ the rows 1.. read are not the rows the kernels wrote through getItem()"
+                              % (facts.ntext(r["slot"]), facts.ntext(bv) if bv is not None else "?", facts.ntext(sv)))
+            other = [t for t in r["terms"] if t is not term and any(z.get("k") == "DeclRefExpr" and z.get("did") == sd for z in walk(t))]
+            if other:
+                res.violation(R, f, fn["qname"], "stride@%d" % r["node"]["l"][1], r["node"]["l"][1], "the pointer of row `%s` is moved by a second row-dependent term `%s`" % (facts.ntext(r["slot"]), facts.ntext(other[0])[:60]))
+            continue
         if not same_row:
             res.violation(R, f, fn["qname"], "row@%d" % r["node"]["l"][1], r["node"]["l"][1],
                           "the pointer of row `%s` is formed from the viewer's address of row `%s`: the viewer alone knows where a row starts (its leading dimension is rounded up to the alignment); the constructor wrote value (p, v) at getItem(p, v), the kernels now read row v somewhere else"
